@@ -1,6 +1,7 @@
 (* C16 -- package-relative roots, a uniform description of resource names, and
    the conformance / filemap theorems. *)
-From Coq Require Import List NArith ZArith PeanoNat Bool Lia Sorting.Sorted.
+From Coq Require Import List NArith ZArith PeanoNat Bool Lia ZifyBool ZifyN Sorting.Sorted.
+Ltac Zify.zify_post_hook ::= Z.div_mod_to_equations.
 Import ListNotations.
 Require Import Verif.Lib.Wire Verif.Lib.Text Verif.Lib.PathNorm Verif.Lib.Utf8 Verif.Lib.Percent
                Verif.Lib.C16Posix Verif.Gen.Facts_C16 Verif.Model.C16 Verif.Proofs.C16.
@@ -435,4 +436,476 @@ Proof.
       * apply Forall_app; split; [assumption|]. apply Forall_forall. intros x Hx. right.
         rewrite Forall_forall in HXn, HXz. split; auto.
       * rewrite ne_filter_app, HDn, (ne_filter_normal X HXn), ER, <- app_assoc. reflexivity.
+Qed.
+
+(* ------------------------------------------------------------ candidates: model order vs specification set *)
+Definition has (res : list (text * list text)) (e x : text) : Prop := exists exts, In (e, exts) res /\ In x exts.
+
+Lemma has_nil e x : ~ has [] e x.
+Proof. intros (exts & [] & _). Qed.
+
+Lemma has_cons e0 xs r e x : has ((e0, xs) :: r) e x <-> (e = e0 /\ In x xs) \/ has r e x.
+Proof.
+  unfold has. split.
+  - intros (exts & [E|Hin] & Hx).
+    + injection E as <- <-. left. split; [reflexivity|assumption].
+    + right. exists exts. split; assumption.
+  - intros [[-> Hx] | (exts & Hin & Hx)].
+    + exists xs. split; [left; reflexivity|assumption].
+    + exists exts. split; [right; assumption|assumption].
+Qed.
+
+Lemma has_compile_add res e ext e' x :
+  has (compile_add res e ext) e' x <-> (e' = e /\ x = ext) \/ has res e' x.
+Proof.
+  induction res as [|[e0 xs] r IH].
+  - cbn [compile_add]. rewrite has_cons. split.
+    + intros [[-> [<-|[]]] | H]; [left; split; reflexivity|destruct (has_nil _ _ H)].
+    + intros [[-> ->] | H]; [left; split; [reflexivity|left; reflexivity]|destruct (has_nil _ _ H)].
+  - cbn [compile_add]. destruct (text_eqb_spec e e0) as [->|Hne].
+    + rewrite !has_cons. rewrite in_app_iff. split.
+      * intros [[-> [Hx|[<-|[]]]] | H]; [right; left; split; [reflexivity|assumption]|left; split; reflexivity|right; right; assumption].
+      * intros [[-> ->] | [[-> Hx] | H]]; [left; split; [reflexivity|right; left; reflexivity]|left; split; [reflexivity|left; assumption]|right; assumption].
+    + rewrite !has_cons, IH. tauto.
+Qed.
+
+Lemma has_fold encs encmap : forall res e' x,
+  has (fold_left (fun res p => if mem_text (snd p) encs then compile_add res (snd p) (fst p) else res) encmap res) e' x
+  <-> has res e' x \/ (In (x, e') encmap /\ mem_text e' encs = true).
+Proof.
+  induction encmap as [|[ext e] r IH]; intros res e' x.
+  - cbn [fold_left]. split; [intros H; left; assumption|intros [H|[[] _]]; assumption].
+  - cbn [fold_left fst snd]. rewrite IH. destruct (mem_text e encs) eqn:Em.
+    + rewrite has_compile_add. split.
+      * intros [[[-> ->] | H] | [Hin Hm]]; [right; split; [left; reflexivity|assumption]|left; assumption|right; split; [right; assumption|assumption]].
+      * intros [H | [[E|Hin] Hm]]; [left; right; assumption|injection E as <- <-; left; left; split; reflexivity|right; split; assumption].
+    + split.
+      * intros [H | [Hin Hm]]; [left; assumption|right; split; [right; assumption|assumption]].
+      * intros [H | [[E|Hin] Hm]]; [left; assumption|injection E as <- <-; congruence|right; split; assumption].
+Qed.
+
+Definition variant_of (c : config) (ext e : text) : Prop := In (ext, e) (c_encmap c) /\ mem_text e (c_encs c) = true.
+
+Lemma candidates_iff c name n eo :
+  In (n, eo) (candidates c name) <->
+  (n = name /\ eo = None) \/ exists ext e, eo = Some e /\ n = name ++ ext /\ variant_of c ext e.
+Proof.
+  unfold candidates. cbn [In]. rewrite in_flat_map. split.
+  - intros [E | ([e exts] & Hin & Hm)].
+    + injection E as <- <-. left. split; reflexivity.
+    + cbn [fst snd] in Hm. apply in_map_iff in Hm. destruct Hm as (ext & E & Hext). injection E as <- <-.
+      right. exists ext, e. split; [reflexivity|]. split; [reflexivity|].
+      assert (Hh : has (compile_encodings (c_encs c) (c_encmap c)) e ext) by (exists exts; split; assumption).
+      unfold compile_encodings in Hh. apply has_fold in Hh. destruct Hh as [Hh|Hh]; [destruct (has_nil _ _ Hh)|exact Hh].
+  - intros [[-> ->] | (ext & e & -> & -> & Hv)]; [left; reflexivity|]. right.
+    assert (Hh : has (compile_encodings (c_encs c) (c_encmap c)) e ext).
+    { unfold compile_encodings. apply has_fold. right. exact Hv. }
+    destruct Hh as (exts & Hin & Hx). exists (e, exts). split; [assumption|]. cbn [fst snd].
+    apply in_map_iff. exists ext. split; [reflexivity|assumption].
+Qed.
+
+Lemma spec_candidates_iff c T T' eo :
+  In (T', eo) (spec_candidates c T) <->
+  (T' = T /\ eo = None) \/ exists ext e, eo = Some e /\ T' = append_ext T ext /\ variant_of c ext e.
+Proof.
+  unfold spec_candidates. cbn [In]. rewrite in_flat_map. split.
+  - intros [E | ([ext e] & Hin & Hm)].
+    + injection E as <- <-. left. split; reflexivity.
+    + cbn [fst snd] in Hm. destruct (mem_text e (c_encs c)) eqn:Em; [|destruct Hm].
+      destruct Hm as [E|[]]. injection E as <- <-. right. exists ext, e. repeat split; assumption.
+  - intros [[-> ->] | (ext & e & -> & -> & Hin & Hm)]; [left; reflexivity|]. right.
+    exists (ext, e). split; [assumption|]. cbn [fst snd]. rewrite Hm. left. reflexivity.
+Qed.
+
+(* ------------------------------------------------------------ the pure content of probe / sizes *)
+Lemma probe_found c fs cands p eo :
+  In (p, eo) (fst (probe c fs cands)) <->
+  exists n, In (n, eo) cands /\ p = os_path c n /\ exists_ (fs_stat fs p) = true.
+Proof.
+  induction cands as [|[n0 e0] r IH].
+  - cbn. split; [intros []|intros (n & [] & _)].
+  - cbn [probe]. unfold bind, stat, ret. destruct (probe c fs r) as [found lg]. cbn [fst] in *.
+    destruct (exists_ (fs_stat fs (os_path c n0))) eqn:Ex.
+    + cbn [In]. rewrite IH. split.
+      * intros [E | (n & Hin & -> & Hex)].
+        -- injection E as <- <-. exists n0. split; [left; reflexivity|split; [reflexivity|assumption]].
+        -- exists n. split; [right; assumption|split; [reflexivity|assumption]].
+      * intros (n & [E|Hin] & -> & Hex).
+        -- injection E as <- <-. left. reflexivity.
+        -- right. exists n. split; [assumption|split; [reflexivity|assumption]].
+    + rewrite IH. split.
+      * intros (n & Hin & -> & Hex). exists n. split; [right; assumption|split; [reflexivity|assumption]].
+      * intros (n & [E|Hin] & -> & Hex).
+        -- injection E as <- <-. congruence.
+        -- exists n. split; [assumption|split; [reflexivity|assumption]].
+Qed.
+
+Lemma sizes_in fs l k f :
+  In (k, f) (fst (sizes fs l)) <-> In f l /\ k = entry_size (fs_stat fs (fst f)).
+Proof.
+  induction l as [|f0 r IH].
+  - cbn. tauto.
+  - cbn [sizes]. unfold bind, stat, ret. destruct (sizes fs r) as [ks lg]. cbn [fst In] in *. rewrite IH. split.
+    + intros [E | [Hin ->]]; [injection E as <- <-; split; [left; reflexivity|reflexivity]|split; [right; assumption|reflexivity]].
+    + intros [[<- | Hin] ->]; [left; reflexivity|right; split; [assumption|reflexivity]].
+Qed.
+
+Definition keyed_of (c : config) (fs : fsys) (name : text) : list (N * cand) :=
+  fst (sizes fs (fst (probe c fs (candidates c name)))).
+Definition files_of (c : config) (fs : fsys) (name : text) : list cand := map snd (sort_by (keyed_of c fs name)).
+
+Lemma compute_files_fst c fs name : fst (compute_files c fs name) = files_of c fs name.
+Proof.
+  unfold compute_files, files_of, keyed_of, bind, ret.
+  destruct (probe c fs (candidates c name)) as [found l1]. cbn [fst].
+  destruct (sizes fs found) as [keyed l2]. reflexivity.
+Qed.
+
+(* ------------------------------------------------------------ the files found are the specification's candidates *)
+Definition found_of (c : config) (fs : fsys) (name : text) : list cand := fst (probe c fs (candidates c name)).
+
+Lemma names_T_snoc c fs name T : names c fs name T -> exists A y, T = A ++ [y].
+Proof. intros ((X & y & ->) & _). exists (spec_root c ++ X), y. rewrite app_assoc. reflexivity. Qed.
+
+Lemma append_ext_nil T : (exists A y, T = A ++ [y]) -> append_ext T [] = T.
+Proof. intros (A & y & ->). rewrite append_ext_snoc, app_nil_r. reflexivity. Qed.
+
+Lemma ext_ok c ext e : wf c -> variant_of c ext e -> ~ In slash ext /\ nonul ext.
+Proof.
+  intros Hwf [Hin _]. pose proof (wf_exts c Hwf) as H. rewrite Forall_forall in H. exact (H (ext, e) Hin).
+Qed.
+
+Lemma found_to_spec c fs name T p eo :
+  wf c -> names c fs name T -> In (p, eo) (found_of c fs name) ->
+  exists T', In (T', eo) (spec_candidates c T) /\ fs_stat fs p = walk fs [] T' /\
+             beneath (spec_root c) p = true /\ exists_ (walk fs [] T') = true.
+Proof.
+  intros Hwf Hn Hin. apply probe_found in Hin. destruct Hin as (n & Hc & -> & Hex).
+  pose proof (names_T_snoc _ _ _ _ Hn) as HT. destruct Hn as (_ & _ & _ & Hn).
+  apply candidates_iff in Hc. destruct Hc as [[-> ->] | (ext & e & -> & -> & Hv)].
+  - destruct (Hn [] ltac:(intros []) ltac:(intros [])) as [Hb Hs]. rewrite app_nil_r in *.
+    rewrite append_ext_nil in Hs by assumption.
+    exists T. split; [apply spec_candidates_iff; left; split; reflexivity|]. rewrite <- Hs. auto.
+  - destruct (ext_ok c ext e Hwf Hv) as [He Hez]. destruct (Hn ext He Hez) as [Hb Hs].
+    exists (append_ext T ext). split; [apply spec_candidates_iff; right; exists ext, e; auto|]. rewrite <- Hs. auto.
+Qed.
+
+Lemma spec_to_found c fs name T T' eo :
+  wf c -> names c fs name T -> In (T', eo) (spec_candidates c T) -> exists_ (walk fs [] T') = true ->
+  exists p, In (p, eo) (found_of c fs name) /\ fs_stat fs p = walk fs [] T'.
+Proof.
+  intros Hwf Hn Hin Hex. pose proof (names_T_snoc _ _ _ _ Hn) as HT. destruct Hn as (_ & _ & _ & Hn).
+  apply spec_candidates_iff in Hin. destruct Hin as [[-> ->] | (ext & e & -> & -> & Hv)].
+  - destruct (Hn [] ltac:(intros []) ltac:(intros [])) as [Hb Hs]. rewrite app_nil_r in *.
+    rewrite append_ext_nil in Hs by assumption.
+    exists (os_path c name). split; [|assumption]. apply probe_found. exists name.
+    split; [apply candidates_iff; left; split; reflexivity|]. split; [reflexivity|]. rewrite Hs. assumption.
+  - destruct (ext_ok c ext e Hwf Hv) as [He Hez]. destruct (Hn ext He Hez) as [Hb Hs].
+    exists (os_path c (name ++ ext)). split; [|assumption]. apply probe_found. exists (name ++ ext).
+    split; [apply candidates_iff; right; exists ext, e; auto|]. split; [reflexivity|]. rewrite Hs. assumption.
+Qed.
+
+(* what static_view.__call__ answers once the list of files is known *)
+Definition file_resp (fs : fsys) (rq : request) (files : list cand) : resp :=
+  match best_match rq files with
+  | None => R404 2
+  | Some (p, enc) =>
+      match fs_stat fs p with
+      | Some (EFile _ b) => R200 b enc (Nat.ltb 1 (length files))
+      | Some (EDir _) => RExc 4
+      | None => RExc 5
+      end
+  end.
+
+Lemma find_none_all {A} (P : A -> bool) l : find P l = None -> forall x, In x l -> P x = false.
+Proof. intros H x Hx. exact (find_none P l H x Hx). Qed.
+
+Lemma keyed_in c fs name k f :
+  In (k, f) (keyed_of c fs name) <-> In f (found_of c fs name) /\ k = entry_size (fs_stat fs (fst f)).
+Proof. unfold keyed_of, found_of. apply sizes_in. Qed.
+
+Lemma files_conform c rq fs name T :
+  wf c -> names c fs name T ->
+  conforms (file_resp fs rq (files_of c fs name)) (spec_serve c rq fs T) = true.
+Proof.
+  intros Hwf Hn. unfold spec_serve.
+  set (live := filter (fun ce => exists_ (walk fs [] (fst ce)) && spec_acceptable rq (snd ce)) (spec_candidates c T)).
+  assert (Hlive : forall ce, In ce live <->
+            In ce (spec_candidates c T) /\ exists_ (walk fs [] (fst ce)) = true /\ spec_acceptable rq (snd ce) = true).
+  { intros ce. unfold live. rewrite filter_In, andb_true_iff. tauto. }
+  unfold file_resp, files_of.
+  destruct (best_match rq (map snd (sort_by (keyed_of c fs name)))) as [[p enc]|] eqn:Eb.
+  - destruct (variant_choice rq _ p enc Eb) as (Hacc & k & Hk & Hmin).
+    apply keyed_in in Hk. destruct Hk as [Hf Hk]. cbn [fst] in Hk.
+    destruct (found_to_spec c fs name T p enc Hwf Hn Hf) as (T' & HT' & Hs & _ & Hex).
+    assert (Hce : In (T', enc) live) by (apply Hlive; cbn [fst snd]; auto).
+    destruct live as [|l0 lr] eqn:El; [destruct Hce|]. rewrite <- El in *.
+    destruct (existsb (fun ce => is_dir (walk fs [] (fst ce))) live) eqn:Ed; [reflexivity|].
+    assert (Hnd : is_dir (walk fs [] T') = false).
+    { destruct (is_dir (walk fs [] T')) eqn:E; [|reflexivity].
+      assert (existsb (fun ce => is_dir (walk fs [] (fst ce))) live = true).
+      { apply existsb_exists. exists (T', enc). split; [assumption|exact E]. }
+      congruence. }
+    rewrite Hs. destruct (walk fs [] T') as [[z b|z]|] eqn:Ew; [|discriminate|discriminate].
+    cbn [conforms]. apply existsb_exists. exists (b, enc). split.
+    + apply in_map_iff. exists (T', enc). cbn [fst snd]. rewrite Ew. split; [reflexivity|].
+      apply filter_In. split; [assumption|]. apply forallb_forall. intros [T'' e''] Hin''.
+      apply Hlive in Hin''. cbn [fst snd] in *. destruct Hin'' as (Hc'' & Hex'' & Hacc'').
+      destruct (spec_to_found c fs name T T'' e'' Hwf Hn Hc'' Hex'') as (p'' & Hf'' & Hs'').
+      apply N.leb_le. rewrite Ew. cbn [entry_size].
+      assert (Hle : k <= entry_size (fs_stat fs p'')).
+      { apply (Hmin _ (p'', e'')); [apply keyed_in; split; [assumption|reflexivity]|exact Hacc'']. }
+      rewrite Hs'' in Hle. rewrite Hk, Hs in Hle. cbn [entry_size] in Hle. exact Hle.
+    + cbn [fst snd]. rewrite text_eqb_refl. destruct enc; cbn [opt_text_eqb andb]; [apply text_eqb_refl|reflexivity].
+  - destruct live as [|[T'' e''] lr] eqn:El; [reflexivity|exfalso].
+    assert (Hin'' : In (T'', e'') live) by (rewrite El; left; reflexivity).
+    rewrite <- El in *. apply Hlive in Hin''. cbn [fst snd] in Hin''. destruct Hin'' as (Hc'' & Hex'' & Hacc'').
+    destruct (spec_to_found c fs name T T'' e'' Hwf Hn Hc'' Hex'') as (p'' & Hf'' & Hs'').
+    rewrite best_match_find, find_map_snd in Eb.
+    destruct (find (fun kf => sel rq (snd kf)) (sort_by (keyed_of c fs name))) as [x|] eqn:Ef; [discriminate|].
+    pose proof (find_none_all _ _ Ef (entry_size (fs_stat fs p''), (p'', e''))) as Hno.
+    assert (Hin : In (entry_size (fs_stat fs p''), (p'', e'')) (sort_by (keyed_of c fs name))).
+    { apply sort_by_In. apply keyed_in. split; [assumption|reflexivity]. }
+    specialize (Hno Hin). cbn [snd] in Hno. unfold sel in Hno. cbn [snd] in Hno. congruence.
+Qed.
+
+(* ------------------------------------------------------------ "the request path ends with '/'" *)
+Lemma ends_with_app_ne c a b : b <> [] -> ends_with c (a ++ b) = ends_with c b.
+Proof.
+  intros Hb. unfold ends_with. rewrite rev_app_distr. destruct (rev b) as [|x r] eqn:E; [|reflexivity].
+  apply (f_equal (@rev N)) in E. rewrite rev_involutive in E. cbn [rev] in E. congruence.
+Qed.
+
+Lemma endswith1 c x : endswith [c] x = ends_with c x.
+Proof.
+  unfold endswith, ends_with. cbn [rev app]. destruct (rev x) as [|y r]; [reflexivity|].
+  cbn [startswith]. rewrite andb_true_r. apply N.eqb_sym.
+Qed.
+
+Lemma encode1_last ch : exists front lastb, encode1 ch = front ++ [lastb] /\ (lastb =? slash) = (ch =? slash).
+Proof.
+  unfold encode1, slash. destruct (ch <? 128) eqn:H1.
+  - exists [], ch. split; reflexivity.
+  - assert (Hne : (ch =? 47) = false) by lia.
+    assert (Hl : (128 + ch mod 64 =? 47) = false) by lia. rewrite Hne.
+    destruct (ch <? 2048); [|destruct (ch <? 65536)].
+    + exists [192 + ch / 64], (128 + ch mod 64). split; [reflexivity|assumption].
+    + exists [224 + ch / 4096; 128 + (ch / 64) mod 64], (128 + ch mod 64). split; [reflexivity|assumption].
+    + exists [240 + ch / 262144; 128 + (ch / 4096) mod 64; 128 + (ch / 64) mod 64], (128 + ch mod 64).
+      split; [reflexivity|assumption].
+Qed.
+
+Lemma quote1_last safe b :
+  is_safe safe slash = true -> quote1 safe b <> [] /\ ends_with slash (quote1 safe b) = (b =? slash).
+Proof.
+  intros Hs. unfold quote1. destruct (is_safe safe b) eqn:E.
+  - split; [discriminate|]. unfold ends_with. reflexivity.
+  - split; [discriminate|]. unfold ends_with. cbn [rev app].
+    assert (Hb : (b =? slash) = false).
+    { destruct (N.eqb_spec b slash) as [->|]; [congruence|reflexivity]. }
+    rewrite Hb. unfold hexdigit, slash. destruct (b mod 16 <? 10); lia.
+Qed.
+
+Lemma quote_encode_last safe host s :
+  is_safe safe slash = true -> ends_with slash host = false ->
+  ends_with slash (host ++ quote safe (encode s)) = ends_with slash s.
+Proof.
+  intros Hs Hh. induction s as [|ch s' _] using rev_ind.
+  - cbn. rewrite app_nil_r. rewrite Hh. reflexivity.
+  - unfold encode. rewrite flat_map_app. cbn [flat_map]. rewrite app_nil_r.
+    destruct (encode1_last ch) as (front & lastb & E & Hl). rewrite E.
+    rewrite !quote_app. unfold quote at 3. cbn [flat_map]. rewrite app_nil_r.
+    destruct (quote1_last safe lastb Hs) as [Hne Hq].
+    rewrite !app_assoc. rewrite ends_with_app_ne by assumption. rewrite Hq, Hl.
+    rewrite ends_with_app_last. reflexivity.
+Qed.
+
+(* ------------------------------------------------------------ the filemap holds exactly what would be recomputed *)
+Definition fm_exact (c : config) (fs : fsys) (fm : filemap) : Prop :=
+  forall name files, fm_get fm name = Some files -> files = files_of c fs name.
+
+Lemma fm_exact_nil c fs : fm_exact c fs [].
+Proof. intros name files H. discriminate. Qed.
+
+Lemma possible_files_exact c fs fm name files fm' log :
+  fm_exact c fs fm -> possible_files c fs fm name = ((files, fm'), log) ->
+  files = files_of c fs name /\ fm_exact c fs fm'.
+Proof.
+  intros Hfm H. unfold possible_files in H. destruct (fm_get fm name) as [cached|] eqn:E.
+  - unfold ret in H. injection H as <- <- _. split; [apply Hfm; assumption|assumption].
+  - unfold bind, ret in H. pose proof (compute_files_fst c fs name) as Ef.
+    destruct (compute_files c fs name) as [fl l1]. cbn [fst] in Ef. injection H as <- <- _.
+    split; [assumption|]. destruct (c_reload c); [assumption|].
+    intros n fl' Hget. cbn [fm_get] in Hget. destruct (text_eqb_spec n name) as [->|Hne].
+    + injection Hget as <-. assumption.
+    + apply Hfm. assumption.
+Qed.
+
+Lemma file_response_val fs p enc vary :
+  fst (file_response fs p enc vary) =
+    match fs_stat fs p with
+    | Some (EFile _ b) => R200 b enc vary
+    | Some (EDir _) => RExc 4
+    | None => RExc 5
+    end.
+Proof. unfold file_response, bind, stat, ret. destruct (fs_stat fs p) as [[z b|z]|]; reflexivity. Qed.
+
+Lemma serve_val c rq pi fs fm t r fm' log :
+  fm_exact c fs fm -> serve c rq pi fs fm t = ((r, fm'), log) ->
+  fm_exact c fs fm' /\
+  r = match fst (get_resource_name c rq pi fs t) with
+      | RNResp r0 => r0
+      | RNName name =>
+          match best_match rq (files_of c fs name) with
+          | None => with_url c pi (R404 2)
+          | Some _ => file_resp fs rq (files_of c fs name)
+          end
+      end.
+Proof.
+  intros Hfm H. unfold serve, bind in H. destruct (get_resource_name c rq pi fs t) as [[r0|name] l1]; cbn [fst].
+  - unfold ret in H. injection H as <- <- _. split; [assumption|reflexivity].
+  - destruct (possible_files c fs fm name) as [[files fm1] l2] eqn:E2.
+    destruct (possible_files_exact c fs fm name files fm1 l2 Hfm E2) as [-> Hfm1]. cbn [fst snd] in H.
+    unfold file_resp. destruct (best_match rq (files_of c fs name)) as [[p enc]|].
+    + pose proof (file_response_val fs p enc (Nat.ltb 1 (length (files_of c fs name)))) as Ev.
+      destruct (file_response fs p enc _) as [r1 l3]. cbn [fst] in Ev. unfold ret in H.
+      injection H as <- <- _. split; [assumption|exact Ev].
+    + unfold ret in H. injection H as <- <- _. split; [assumption|reflexivity].
+Qed.
+
+Definition host_ok (c : config) : Prop :=
+  ends_with slash (c_host c) = false /\ is_safe (c_safe c) slash = true.
+
+Lemma path_url_some c pi s : decode pi = Some s -> path_url c pi = Some (c_host c ++ quote (c_safe c) (encode s)).
+Proof. intros H. unfold path_url. rewrite H. reflexivity. Qed.
+
+Lemma file_resp_404 fs rq files : best_match rq files = None -> file_resp fs rq files = R404 2.
+Proof. intros H. unfold file_resp. rewrite H. reflexivity. Qed.
+
+Lemma is_dir_true o : is_dir o = true -> exists z, o = Some (EDir z).
+Proof. destruct o as [[z b|z]|]; try discriminate. intros _. exists z. reflexivity. Qed.
+
+Lemma serve_conform c rq pi fs fm t s r fm' log :
+  wf c -> root_is_dir c fs -> host_ok c -> fm_exact c fs fm -> decode pi = Some s ->
+  serve c rq pi fs fm t = ((r, fm'), log) ->
+  fm_exact c fs fm' /\
+  conforms r (if forallb seg_ok t then spec_tail c rq fs (Some s) t else S404) = true.
+Proof.
+  intros Hwf Hroot [Hh Hsafe] Hfm Hdec H.
+  destruct (serve_val c rq pi fs fm t r fm' log Hfm H) as [Hfm' ->]. split; [assumption|].
+  pose proof (path_url_some c pi s Hdec) as Hurl.
+  destruct (forallb seg_ok t) eqn:Hok.
+  2:{ unfold get_resource_name. rewrite (secure_bad t Hok). cbn [ret fst]. unfold with_url. rewrite Hurl. reflexivity. }
+  destruct (grn_names c rq pi fs t Hwf Hok) as (iname & nname & lg & E & _ & Hni & Hnn). rewrite E. cbn [fst].
+  unfold spec_tail.
+  destruct (is_dir (walk fs [] (spec_root c ++ t))) eqn:Hd.
+  - destruct (is_dir_true _ Hd) as [z Ez]. rewrite Ez.
+    unfold dir_or_redirect. rewrite Hurl.
+    change url_dir_suffix with [slash]. rewrite endswith1, quote_encode_last by assumption.
+    destruct (ends_with slash s).
+    + replace (spec_root c ++ t ++ [eff_index c]) with ((spec_root c ++ t) ++ [eff_index c]) in Hni
+        by (rewrite <- app_assoc; reflexivity).
+      pose proof (files_conform c rq fs iname _ Hwf Hni) as Hc.
+      destruct (best_match rq (files_of c fs iname)) eqn:Eb; [exact Hc|].
+      rewrite (file_resp_404 _ _ _ Eb) in Hc. unfold with_url. rewrite Hurl. exact Hc.
+    + unfold redirect. cbn [conforms].
+      change redirect_append with [slash]. change redirect_qs_sep with [63].
+      rewrite <- !app_assoc. apply text_eqb_refl.
+  - assert (Hne : t <> []).
+    { intros ->. rewrite app_nil_r in Hd. unfold root_is_dir in Hroot. congruence. }
+    specialize (Hnn Hne). pose proof (files_conform c rq fs nname _ Hwf Hnn) as Hc.
+    assert (Hgoal : conforms
+              match best_match rq (files_of c fs nname) with
+              | Some _ => file_resp fs rq (files_of c fs nname)
+              | None => with_url c pi (R404 2)
+              end (spec_serve c rq fs (spec_root c ++ t)) = true).
+    { destruct (best_match rq (files_of c fs nname)) eqn:Eb; [exact Hc|].
+      rewrite (file_resp_404 _ _ _ Eb) in Hc. unfold with_url. rewrite Hurl. exact Hc. }
+    destruct (walk fs [] (spec_root c ++ t)) as [[z b|z]|]; [exact Hgoal|discriminate Hd|exact Hgoal].
+Qed.
+
+(* ------------------------------------------------------------ one request, every mounting *)
+Lemma route_match_strip prefix p : route_match prefix p = strip_prefix prefix p.
+Proof. unfold route_match. destruct (strip_prefix prefix p); reflexivity. Qed.
+
+Lemma spi_default p0 :
+  split_path_info (match p0 with [] => [slash] | _ => p0 end) = split_path_info p0.
+Proof. destruct p0; reflexivity. Qed.
+
+Lemma view_tuple_val pi : view_tuple pi =
+  match decode pi with None => Datatypes.inl (RExc 2) | Some s => Datatypes.inr (split_path_info s) end.
+Proof. unfold view_tuple. destruct (decode pi); reflexivity. Qed.
+
+Definition tail_or_404 (c : config) (rq : request) (fs : fsys) (s : text) (segs : list text) : spec_out :=
+  if forallb seg_ok segs then spec_tail c rq fs (Some s) segs else S404.
+
+Lemma routed_conform c rq fs fm prefix p0 r fm' log :
+  wf c -> root_is_dir c fs -> host_ok c -> fm_exact c fs fm -> decode (unquote (r_raw rq)) = Some p0 ->
+  match route_match prefix (match p0 with [] => [slash] | _ => p0 end) with
+  | None => ret (R404 0, fm)
+  | Some rest => serve c rq (unquote (r_raw rq)) fs fm (split_path_info_f rest)
+  end = ((r, fm'), log) ->
+  fm_exact c fs fm' /\
+  conforms r match strip_prefix prefix (match p0 with [] => [slash] | _ => p0 end) with
+             | None => S404
+             | Some rest => tail_or_404 c rq fs p0 (split_path_info rest)
+             end = true.
+Proof.
+  intros Hwf Hroot Hhost Hfm Hdec H. rewrite route_match_strip in H.
+  destruct (strip_prefix prefix _) as [rest|].
+  - change (split_path_info_f rest) with (split_path_info rest) in H.
+    exact (serve_conform c rq _ fs fm _ p0 r fm' log Hwf Hroot Hhost Hfm Hdec H).
+  - unfold ret in H. injection H as <- <- _. split; [assumption|reflexivity].
+Qed.
+
+Theorem request_conform c fs fm rq r fm' log :
+  wf c -> root_is_dir c fs -> host_ok c -> fm_exact c fs fm ->
+  ((c_mount c = 0 \/ c_mount c = 1 \/ c_mount c = 2) \/ decode (unquote (r_raw rq)) <> None) ->
+  run_request c fs fm rq = ((r, fm'), log) ->
+  fm_exact c fs fm' /\ conforms r (spec_response c rq fs) = true.
+Proof.
+  intros Hwf Hroot Hhost Hfm Hmd H.
+  assert (Hrej : forall k, (k = 1 \/ k = 2) -> ret (RExc k, fm) = ((r, fm'), log) ->
+                 fm_exact c fs fm' /\ conforms r SReject = true).
+  { intros k Hk E. unfold ret in E. injection E as <- <- _. split; [assumption|]. destruct Hk as [-> | ->]; reflexivity. }
+  assert (Hgiven : forall s, decode (unquote (r_raw rq)) = Some s ->
+            serve c rq (unquote (r_raw rq)) fs fm (r_subpath rq) = ((r, fm'), log) ->
+            fm_exact c fs fm' /\
+            conforms r (match (if forallb seg_ok (r_subpath rq) then Some (r_subpath rq) else None) with
+                        | Some segs => spec_tail c rq fs (decode (unquote (r_raw rq))) segs
+                        | None => S404 end) = true).
+  { intros s Hdec E. pose proof (serve_conform c rq _ fs fm _ s r fm' log Hwf Hroot Hhost Hfm Hdec E) as [H1 H2].
+    split; [assumption|]. rewrite Hdec. destruct (forallb seg_ok (r_subpath rq)); exact H2. }
+  assert (Hother : (c_mount c <> 0 /\ c_mount c <> 1 /\ c_mount c <> 2) ->
+            exists s, decode (unquote (r_raw rq)) = Some s).
+  { intros (H0 & H1 & H2). destruct Hmd as [[E|[E|E]]|Hd]; try contradiction.
+    destruct (decode (unquote (r_raw rq))) as [s|]; [exists s; reflexivity|congruence]. }
+  unfold run_request in H. unfold spec_response, spec_segments, route_prefix, spec_prefix.
+  revert H Hother. destruct (c_mount c) as [|[q|q|]]; intros H Hother.
+  - (* 0: add_static_view *)
+    destruct (decode (unquote (r_raw rq))) as [p0|] eqn:Hdec; [|apply (Hrej 1); auto].
+    change (text_eqb static_route_star traverser_subpath_key) with true in H.
+    change static_use_subpath with true in H. cbv iota in H.
+    pose proof (routed_conform c rq fs fm _ p0 r fm' log Hwf Hroot Hhost Hfm Hdec H) as [H1 H2].
+    split; [assumption|]. cbv beta iota. cbv beta iota in H2. revert H2. unfold tail_or_404.
+    destruct (strip_prefix _ _); [|exact (fun x => x)].
+    destruct (forallb seg_ok _); exact (fun x => x).
+  - (* odd, at least 3 *)
+    destruct Hother as [s Hdec]; [repeat split; discriminate|]. exact (Hgiven s Hdec H).
+  - destruct q as [q|q|].
+    + destruct Hother as [s Hdec]; [repeat split; discriminate|]. exact (Hgiven s Hdec H).
+    + destruct Hother as [s Hdec]; [repeat split; discriminate|]. exact (Hgiven s Hdec H).
+    + (* 2: plain view on PATH_INFO *)
+      unfold serve_path_info in H. rewrite view_tuple_val in H.
+      destruct (decode (unquote (r_raw rq))) as [p0|] eqn:Hdec; [|apply (Hrej 2); auto].
+      cbn [strip_prefix]. rewrite spi_default.
+      pose proof (serve_conform c rq _ fs fm _ p0 r fm' log Hwf Hroot Hhost Hfm Hdec H) as [H1 H2].
+      split; [assumption|]. destruct (forallb seg_ok _); exact H2.
+  - (* 1: catch-all route *)
+    destruct (decode (unquote (r_raw rq))) as [p0|] eqn:Hdec; [|apply (Hrej 1); auto].
+    change (text_eqb subpath_key traverser_subpath_key) with true in H. cbv iota in H.
+    pose proof (routed_conform c rq fs fm _ p0 r fm' log Hwf Hroot Hhost Hfm Hdec H) as [H1 H2].
+    split; [assumption|]. cbv beta iota. cbv beta iota in H2. revert H2. unfold tail_or_404.
+    destruct (strip_prefix _ _); [|exact (fun x => x)].
+    destruct (forallb seg_ok _); exact (fun x => x).
 Qed.
